@@ -255,7 +255,10 @@ def action_case(value):
         raise Violation('%s:N-EVENT-REPORT:uids' % PROP, 'report SOP class/instance %r / %r'
                         % (rep['fields'].get(0x0002), rep['fields'].get(0x1000)), case)
     # the library encodes the report in the transfer syntax of the context the N-ACTION arrived on
-    ds = svc.dec_ds(rep['data'] or b'', svc.IMPLICIT)
+    try:
+        ds = svc.dec_ds(rep['data'] or b'', svc.IMPLICIT)
+    except Exception as exc:
+        raise Violation('%s:N-EVENT-REPORT:content' % PROP, 'report data set undecodable: %r' % (exc,), case)
     got_ok = [(str(i.ReferencedSOPClassUID), str(i.ReferencedSOPInstanceUID)) for i in getattr(ds, 'ReferencedSOPSequence', [])]
     got_bad = [(str(i.ReferencedSOPClassUID), str(i.ReferencedSOPInstanceUID), int(i.FailureReason))
                for i in getattr(ds, 'FailedSOPSequence', [])]
